@@ -80,3 +80,20 @@ Theorem C20_render_total_flat_partial : forall ffmt c sc fuel exp id d ps,
   flat_schema sc -> no_oof (shown_struct ffmt c sc (S fuel) exp id d ps).
 Proof. exact render_total_flat_partial. Qed.
 Print Assumptions C20_render_total_flat_partial.
+
+(* ---- histories with UseRegistry: after any sequence of Encode and UseRegistry calls, Encode
+   writes what a fresh encoder pointed at the current registry writes *)
+Theorem C20_encode_history_independent_reg : forall ffmt c fuel reg0 ops id v,
+  c_fixed c = true -> s_load reg0 <= c_limit0 c -> Forall (op_loadable c) ops ->
+  let st := run_ops ffmt c true fuel ops (enc_init reg0) in
+  fst (encode_e ffmt c fuel id v st) = fst (encode ffmt c (es_reg st) fuel id v None).
+Proof. exact encode_history_independent_reg. Qed.
+Print Assumptions C20_encode_history_independent_reg.
+
+(* EncodeList after any history of Encode, EncodeList (of any element types) and UseRegistry calls *)
+Theorem C20_encode_list_history_independent : forall ffmt c fuel reg0 ops id l,
+  c_fixed c = true -> s_load reg0 <= c_limit0 c -> Forall (op_loadable c) ops ->
+  let st := run_ops ffmt c true fuel ops (enc_init reg0) in
+  fst (encode_list_e ffmt c fuel id l st) = fst (encode_list ffmt c (es_reg st) fuel id l None).
+Proof. exact encode_list_history_independent. Qed.
+Print Assumptions C20_encode_list_history_independent.
